@@ -130,15 +130,21 @@ def r_tagmap(run, F, T, check_registry=True, rule="R-TAGMAP"):
             array_paths.append(p)
         for v in vs:
             if r[0] == "cast" and r[2][0] == "ctor" and r[2][1].startswith(VT):
-                to_tag[v] = ("tag", r[2][1])
+                new = ("tag", r[2][1])
             elif field_of_self(r) == ("Other", "tag"):
-                to_tag[v] = ("own-tag",)
+                new = ("own-tag",)
             elif is_call(r, "std::option::Option::<T>::unwrap_or") and any(is_call(x, "core::slice::<impl [T]>::first") for x in subterms(r)):
                 m = mentions(r)
                 dflt = r[2][1]
-                to_tag[v] = ("first-element", TO_TAG in m["callees"], dflt[2][1] if dflt[0] == "cast" and dflt[2][0] == "ctor" else None)
+                new = ("first-element", TO_TAG in m["callees"], dflt[2][1] if dflt[0] == "cast" and dflt[2][0] == "ctor" else None)
             else:
-                to_tag[v] = ("?", tshow(r)[:80])
+                new = ("?", tshow(r)[:80])
+            if v in to_tag and to_tag[v] != new and v != V + "Array":
+                # a guarded arm gives the same kind a second tag: the decoder cannot map both back
+                run.ob(rule, "%s has one tag on every path" % v.split("::")[-1], False, "to_tag gives %s on one path and %s on another" % (to_tag[v], new), site(tb),
+                       key="%s|to_tag|two-tags|%s" % (rule, v))
+                new = ("?", "two tags")
+            to_tag[v] = new
     from_tag = {}
     fallback_ok = []
     for p in paths_of(pb):
